@@ -230,3 +230,31 @@ func init() {
 		return 0
 	}
 }
+
+func init() {
+	tools["dump-sw"] = func(args []string) int {
+		r := loadRepo()
+		want := strings.Join(args, " ")
+		for _, sp := range switchSuite() {
+			if !strings.Contains(sp.Name, want) {
+				continue
+			}
+			rs, probs := runSwitchSuite(r, []swModel{sp}, []modelOpts{{Ast: true, Switch: true}})
+			fmt.Println(probs)
+			for _, sr := range rs {
+				fmt.Println("==", sr.Spec.Name, "rewrote:", sr.Rewrote, "err:", sr.Err, "first:", sr.FirstBad)
+				if sr.TV != nil {
+					fmt.Println(sr.TV.RuleText)
+					fmt.Println(sr.TV.detail())
+					for _, o := range sr.TV.Got {
+						fmt.Println("  got ", projEquivRaw(o), o.Flags)
+					}
+					for _, o := range sr.TV.Want {
+						fmt.Println("  want", projEquivRaw(o))
+					}
+				}
+			}
+		}
+		return 0
+	}
+}
